@@ -149,6 +149,7 @@ void h_fetch(void)
   if (sid != W) { IORA_CANARY("h_fetch: other session"); __CPROVER_assert(MAPS_SAME(impl, impl0) && SAME_BUF(G_wbuf, w0), "F3 other sessions untouched"); return; }
   if (!impl0.receiveBuffers.present)
   { IORA_CANARY("h_fetch: nothing buffered"); __CPROVER_assert(st == 1 && !fg.engaged && impl.readModes.present && impl.readModes.wval == ReadMode_Async && impl.activeFlushes == impl0.activeFlushes, "FE2 no buffer: mode becomes Async at once, no flusher counted"); return; }
+  if (w0.closed && st == 0) { __CPROVER_assert(!fg.engaged && MAPS_SAME(impl, impl0) && SAME_BUF(G_wbuf, w0) && impl.activeFlushes == impl0.activeFlushes, "FE4 a refusal for an already closed session touches nothing"); return; }
   IORA_CANARY("h_fetch: flush begins");
   __CPROVER_assert(st == 2 && fg.engaged && buf == &G_wbuf && fg.buf == &G_wbuf && G_wbuf.flushing && impl.activeFlushes == impl0.activeFlushes + 1 && impl.readModes.present == impl0.readModes.present, "FE3 the flusher is marked and counted under the SAME lock acquisition that fetched the buffer; the mode is untouched");
 }
@@ -186,4 +187,48 @@ void h_fence_step1(void)
   IORA_CANARY("h_fence_step1: returns");
   __CPROVER_assert(st == 0 || st == 2, "FS1 after shuttingDown is set, setReadMode does not report success from its first critical section");
   __CPROVER_assert(MAPS_SAME(impl, impl0) && G_made == 0, "FS2 ... and does not touch readModes / receiveBuffers");
+}
+
+/* ---- (2)+(3) receiveSync under teardown: entry fence; every exit of a parked call returns a definite result and restores both counters ---- */
+void h_parked_receive(void)
+{
+  TD_SETUP
+  SessionId sid = nondet_u64(); iora_outbuf ob; size_t len = nondet_size_t(); ob.cap = len; iora_time to;
+  __CPROVER_assume(!G_on_io_thread && impl.activeReceives < (size_t)-1 && impl.teardownCv.n_one < 1000);
+  G_parked = 0; size_t waiters0 = G_wbuf.waiters;
+  iora_result r = Transport_receiveSync(self, sid, &ob, &len, to);
+  IORA_CANARY("h_parked_receive: returns");
+  __CPROVER_assert(!impl.syncMutex.held, "LK5 syncMutex released at return");
+  if (impl0.shuttingDown)
+  {
+    IORA_CANARY("h_parked_receive: entry fence");
+    __CPROVER_assert(!r.ok && r.code == TransportError_ShuttingDown && !G_parked, "FR1 entry fence of receiveSync: ShuttingDown, the caller does not park");
+    __CPROVER_assert(MAPS_SAME(impl, impl0) && SAME_BUF(G_wbuf, w0) && impl.activeReceives == impl0.activeReceives && G_made == 0, "FR2 ... touches no map, creates no buffer, is not counted (the teardown gate cannot be re-armed)");
+    return;
+  }
+  __CPROVER_assert(r.ok || r.code == TransportError_Cancelled || r.code == TransportError_Timeout || r.code == TransportError_BufferOverflow || r.code == TransportError_PeerClosed || r.code == TransportError_ShuttingDown, "PR1 every exit returns a definite result");
+  __CPROVER_assert(G_parked ? impl.activeReceives == G_ar_at_wake - 1 : impl.activeReceives == impl0.activeReceives, "PR2 a parked call restores activeReceives on EVERY exit (also when woken by teardown); a call that did not park never touched it");
+  if (sid == W && impl0.receiveBuffers.present) { __CPROVER_assert(G_wbuf.waiters == waiters0, "PR3 ... and the buffer's waiter count"); }
+  __CPROVER_assert(!(G_parked && !r.ok && r.code == TransportError_ShuttingDown) || G_sd_at_wake, "PR4 ShuttingDown after parking only if teardown really began");
+  if (G_parked && G_sd_at_wake) { IORA_CANARY("h_parked_receive: woken by teardown"); }
+}
+void h_parked_connect(void)
+{
+  TD_SETUP
+  iora_host h; iora_time to;
+  __CPROVER_assume(!G_on_io_thread && impl.activeConnects < (size_t)-1 && impl.teardownCv.n_one < 1000);
+  impl.config.protocol = 0; G_parked = 0; G_connect_calls = 0; G_conn_fails = nondet_bool(); G_unlocks = 0; G_ac_at_wake = 0;
+  iora_result r = Transport_connectSync(self, h, 0, 0, to);
+  IORA_CANARY("h_parked_connect: returns");
+  __CPROVER_assert(!impl.syncMutex.held, "LK5 syncMutex released at return");
+  if (impl0.shuttingDown)
+  {
+    IORA_CANARY("h_parked_connect: entry fence");
+    __CPROVER_assert(!r.ok && r.code == TransportError_ShuttingDown && !G_parked && G_connect_calls == 0 && G_close_calls == 0, "FC1 entry fence of connectSync: ShuttingDown, the engine is not touched, the caller does not park");
+    __CPROVER_assert(impl.pendingConnects.present == impl0.pendingConnects.present && impl.activeConnects == impl0.activeConnects, "FC2 ... nothing registered, not counted");
+    return;
+  }
+  __CPROVER_assert(G_parked ? impl.activeConnects == G_ac_at_wake - 1 : impl.activeConnects == impl0.activeConnects, "PC2 a parked connectSync restores activeConnects on EVERY exit");
+  __CPROVER_assert(!(G_parked && G_sd_at_wake && !G_fresh_op.done) || (!r.ok && r.code == TransportError_ShuttingDown && G_close_calls == 0), "PC3 woken by teardown without completion: ShuttingDown, engine->close() not touched");
+  if (G_parked && G_sd_at_wake) { IORA_CANARY("h_parked_connect: woken by teardown"); }
 }
